@@ -46,7 +46,12 @@ use std::sync::atomic::{AtomicPtr, AtomicU32, AtomicU64, Ordering};
 use crate::verif::sync::atomic::{AtomicPtr, AtomicU32, AtomicU64};
 #[cfg(zipora_verif)]
 use std::sync::atomic::Ordering;
+#[cfg(not(zipora_verif))]
 use std::sync::{Arc, Mutex, Weak};
+#[cfg(zipora_verif)]
+use std::sync::{Arc, Weak};
+#[cfg(zipora_verif)]
+use crate::verif::sync::Mutex;
 use std::time::{Instant, SystemTime, UNIX_EPOCH};
 
 /// Magic constants for corruption detection
